@@ -1219,4 +1219,122 @@ def sites():
         bad = "; ".join(r["site"].split(": ")[-1] for r in recs if not r["ok"])
         T.write_generated("C16Cut", f"/- translation of the current tree FAILED ({bad}): no definitions are emitted, the bridges cannot build -/\n"
                           "end Mouette.Generated.C16\n", header=HEADER)
-    return recs + [dual_site()]
+    return recs + [dual_site(), span_site()]
+
+
+# ------------------------------------------------------------------------------------------------------------------
+# _build_singularity_spanning_tree_no_features  (round 8)  ->  Generated/C16Span.lean
+# ------------------------------------------------------------------------------------------------------------------
+class _Alpha(ast.NodeTransformer):
+    """rename every local (parameters other than self, assigned names, loop / comprehension targets, nested function names) to
+    v1, v2, .. in order of first binding"""
+
+    def __init__(self): self.m = {}
+
+    def _b(self, name):
+        if name not in self.m: self.m[name] = f"v{len(self.m) + 1}"
+        return self.m[name]
+
+    def visit_FunctionDef(self, n):
+        if n.name != "_build_singularity_spanning_tree_no_features": n.name = self._b(n.name)
+        for a in n.args.args:
+            if a.arg != "self": a.arg = self._b(a.arg)
+        n.returns = None
+        for a in n.args.args: a.annotation = None
+        self.generic_visit(n)
+        return n
+
+    def visit_Name(self, n):
+        if isinstance(n.ctx, ast.Store): n.id = self._b(n.id)
+        elif n.id in self.m: n.id = self.m[n.id]
+        return n
+
+
+def _span_normal_form(tree):
+    fn = T.find_def(tree, f"{CLS}._build_singularity_spanning_tree_no_features")
+    fn = Norm().visit(copy.deepcopy(fn))
+    def clean(stmts):
+        out = []
+        for s in _strip(stmts):
+            for fld in ("body", "orelse"):
+                if hasattr(s, fld) and isinstance(getattr(s, fld), list): setattr(s, fld, clean(getattr(s, fld)))
+            out.append(s)
+        return out
+    fn.body = clean(fn.body)
+    # two passes: bind in source order (stores first seen), then rename loads
+    al = _Alpha()
+    class Binder(ast.NodeVisitor):
+        def visit_FunctionDef(self, n):
+            if n.name != "_build_singularity_spanning_tree_no_features": al._b(n.name)
+            for a in n.args.args:
+                if a.arg != "self": al._b(a.arg)
+            self.generic_visit(n)
+        def visit_Name(self, n):
+            if isinstance(n.ctx, ast.Store): al._b(n.id)
+    Binder().visit(fn)
+    fn = al.visit(fn)
+    ast.fix_missing_locations(fn)
+    return [l for l in ast.unparse(fn).split("\n")[1:]]
+
+
+SPAN_TEMPLATE = ['    v1 = 0 < len(self.input_mesh.boundary_vertices)', '    v2 = -1', '    v3 = self.singularities + [v2] if v1 else self.singularities', '    v4 = Attribute(bool)', '    if not self.singularities:', '        return v4', '    v5 = dict()', '    for v6, v7 in enumerate(self.singularities):', '        v8 = shortest_path(self.input_mesh, v7, set(self.singularities[v6:]), weights=self.edge_lengths)', '        for v9 in v8:', '            v5[keyify(v7, v9)] = v8[v9]', '        if v1:', '            v5[v2, v7] = shortest_path_to_border(self.input_mesh, v7, weights=self.edge_lengths)', '', '    def v10(v11):', '        v12 = 0', '        for v6 in range(1, len(v11)):', '            v13, v14 = (v11[v6 - 1], v11[v6])', '            v12 += self.edge_lengths[self.input_mesh.connectivity.edge_id(v13, v14)]', '        return v12', '    v15 = []', '    for v16 in v5:', '        v15.append((v10(v5[v16]), v16))', '    v15.sort()', '    v17 = UnionFind(v3)', '    v18 = []', '    for v19, v20 in v15:', '        v7, v9 = v20', '        if not v17.connected(v7, v9):', '            v18.append(v20)', '            v17.union(v7, v9)', '    for v7, v9 in v18:', '        v21 = v5[v7, v9]', '        for v6 in range(1, len(v21)):', '            v22, v23 = (v21[v6 - 1], v21[v6])', '            v4[self.input_mesh.connectivity.edge_id(v22, v23)] = True', '    return v4']
+
+SPAN_LEAN = '''/-- `singul = self.singularities + [BORDER] if mesh_has_border else self.singularities` -/
+def singul (sing : List Nat) (hasBorder : Bool) (border : Nat) : List Nat := if hasBorder then sing ++ [border] else sing
+
+/-- `if not self.singularities: return edge_flags` (nothing flagged) -/
+def earlyReturn (sing : List Nat) : Bool := sing.isEmpty
+
+/-- the keys written into `path_btw_singus`: for the `i`-th singularity `a`, `keyify(a,b)` for every `b` of `singularities[i:]` (so also the
+one-vertex path `a -> a`), then `(BORDER, a)` when the mesh has a border -/
+def candKeys (sing : List Nat) (hasBorder : Bool) (border : Nat) : List (Nat × Nat) :=
+  sing.zipIdx.flatMap (fun p => (sing.drop p.2).map (fun b => Trees.keyify p.1 b) ++ (if hasBorder then [(border, p.1)] else []))
+
+/-- `for k in path_btw_singus: path_lengths.append((compute_path_length(path_btw_singus[k]), k))`: EVERY key, no guard -/
+def lengthEntries (keys : List (Nat × Nat)) (len : Nat × Nat → Rat) : List (Rat × (Nat × Nat)) := keys.map (fun k => (len k, k))
+
+/-- body of `for (_,key) in path_lengths`: `a,b = key; if not uf.connected(a,b): selected.append(key); uf.union(a,b)` -/
+def spanStep (acc : UF.State × List (Nat × Nat)) (x : Rat × (Nat × Nat)) : UF.State × List (Nat × Nat) :=
+  match UF.connected acc.1 x.2.1 x.2.2 with
+  | none => acc
+  | some (uf, c) => if !c then (UF.union uf x.2.1 x.2.2, acc.2 ++ [x.2]) else (uf, acc.2)
+
+/-- the Kruskal loop over the (sorted) entries, from `uf = UnionFind(singul)`, `selected = []` -/
+def spanLoop (entries : List (Rat × (Nat × Nat))) (uf : UF.State) : UF.State × List (Nat × Nat) := entries.foldl spanStep (uf, [])
+
+/-- `for i in range(1, len(path)): u,v = path[i-1], path[i]; edge_flags[edge_id(u,v)] = True` -/
+def flagPath (E : List (Nat × Nat)) (path : List Nat) : List Nat :=
+  (List.range' 1 (path.length - 1)).map (fun i => edgeId E (path.getD (i - 1) 0) (path.getD i 0))
+
+/-- `for (a,b) in selected: path_ab = path_btw_singus[(a,b)]; ...`: the ids of the flagged edges -/
+def flagLoop (E : List (Nat × Nat)) (paths : Nat × Nat → List Nat) (selected : List (Nat × Nat)) : List Nat :=
+  selected.flatMap (fun k => flagPath E (paths k))
+'''
+
+
+def _compile_span(tree):
+    nf = _span_normal_form(tree)
+    if nf != SPAN_TEMPLATE:
+        for k, (a, b) in enumerate(zip(nf + ["<end>"] * 80, SPAN_TEMPLATE + ["<end>"] * 80)):
+            if a != b:
+                raise TranslateError(f"_build_singularity_spanning_tree_no_features: statement {k} of the normalised body is `{a.strip()[:90]}`, "
+                                     f"expected `{b.strip()[:90]}`")
+    return SPAN_LEAN
+
+
+SPAN_HEADER = "import Mouette.Model.SpanSource\nnamespace Mouette.Generated.C16P\nopen Mouette Mouette.UF Mouette.Cutting Mouette.CutSrc Mouette.SpanSrc\n\n"
+
+
+def span_site():
+    tree, _ = T.load(FILE)
+    box = {}
+    def run():
+        box["t"] = _compile_span(tree); return "ok"
+    r = T.site("cutting.py: SingularityCutter._build_singularity_spanning_tree_no_features (BORDER node, candidate paths, lengths, Kruskal loop, flag loop)", run)
+    if r["ok"]:
+        _, sha = T.write_generated("C16Span", box["t"] + "\nend Mouette.Generated.C16P\n", header=SPAN_HEADER)
+        r["detail"] = sha
+    else:
+        T.write_generated("C16Span", "/- translation of the current tree FAILED: no definitions are emitted, the bridges cannot build -/\n"
+                          "end Mouette.Generated.C16P\n", header=SPAN_HEADER)
+    return r
